@@ -13,6 +13,9 @@
 ; tm(a, b): the product a*b where a function is verified with opaque multiplication (contract flag opaquemul):
 ; uninterpreted, known only through lemma instances (the lemmas themselves are proved with ordinary multiplication).
 (declare-fun tm (Int Int) Int)
+; dv(a, b): the quotient a div b (rounding down for b > 0) in contract expressions of functions verified with opaque
+; division (contract flag opaquediv): uninterpreted, known through lemma instances only.
+(declare-fun dv (Int Int) Int)
 (define-fun abs_int ((a Int)) Int (ite (>= a 0) a (- a)))
 ; truncation toward zero of a real (Go's float -> int conversion for values in range)
 (define-fun trunc ((r Real)) Int (ite (>= r 0.0) (to_int r) (- (to_int (- r)))))
